@@ -3,7 +3,7 @@
 P="$1"; PATCH="$(realpath "$2")"; TIER="${3:-quick}"
 WT=/tmp/trymut_$P_$$
 git -C /repo worktree add -q "$WT" HEAD || exit 2
-( cd "$WT" && git apply "$PATCH" ) || { echo "patch does not apply"; git -C /repo worktree remove --force "$WT"; exit 2; }
+( cd "$WT" && ( git apply "$PATCH" 2>/dev/null || git apply --3way "$PATCH" ) ) || { echo "patch does not apply"; git -C /repo worktree remove --force "$WT"; exit 2; }
 VERIF_REPO="$WT" python3 /verif/check/check.py "$P" --tier "$TIER"
 rc=$?
 git -C /repo worktree remove --force "$WT"
